@@ -180,15 +180,16 @@ theorem RwView.reopen_wav {h : H} {s : Store} {R W F : Nat} {hdr D : List Byte} 
     (hguard : D.length < 0xFFFFFFFF)
     (ix pos fmt0 : Nat) (ch0 sr0 : Int) (hraw : containerOf fmt0 ≠ some .raw) :
     ∃ h' s', openHandle ix ⟨(closeHandle h s).bytes, pos⟩ .r fmt0 ch0 sr0 = .ok h' s' ∧ Reopened h F D h' s' := by
-  rw [v.close_wav hc]
+  obtain ⟨t2, ht2, _, hcl⟩ := v.close_wav hc
+  rw [hcl]
   have henc : encOf .wav (codecOf h.fmtWord) h.big = some h.enc := by
     have := cfg.enc; rw [hc] at this; rw [cfg.fmtWord]; exact this
   obtain ⟨hcodec, hnb⟩ := encOf_wav_facts henc
   have hch : 1 ≤ h.ch ∧ h.ch ≤ 1024 := by rw [cfg.hch]; have := cfg.chr; omega
   have hsr' : 1 ≤ h.sr ∧ h.sr ≤ 0x7FFFFFFF := by rw [cfg.hsr]; exact ⟨cfg.srr, hsr⟩
-  generalize hfl : ((hdrLenOf h + D.length + (wavPadAt (hdrLenOf h + D.length)).length : Nat) : Int) = fl
-  generalize hpd : wavPadAt (hdrLenOf h + D.length) = pad
-  have hpl : pad.length ≤ 1 := by rw [← hpd]; exact wavPadAt_length _
+  generalize hfl : ((hdrLenOf h + D.length + t2 : Nat) : Int) = fl
+  generalize hpd : zeros t2 = pad
+  have hpl : pad.length ≤ 1 := by rw [← hpd, zeros_length]; exact ht2
   have himg : wavHdr_ct h.big (codecOf h.fmtWord) h.enc.nbytes h.ch h.sr F none true fl D.length ++ D ++ pad =
       wavChain h.big (codecOf h.fmtWord) (wavNb (codecOf h.fmtWord)) h.ch h.sr (wavFact h.big (codecOf h.fmtWord) F)
         [] fl D.length (D ++ pad) := by
@@ -264,17 +265,22 @@ structure ReopenedRw (enc : Enc) (chn F : Nat) (D : List Byte) (h' : H) (s' : St
 theorem ReopenedRw.of_open {enc : Enc} {chn F : Nat} {D : List Byte} {ix : Nat} {s0 : Store} {fmt : Nat} {ch sr : Int}
     {h' : H} {s' : Store} (ho : openHandle ix s0 .rw fmt ch sr = .ok h' s') (hch : h'.ch = chn) (henc : h'.enc = enc)
     (hfr : h'.frames = (F : Int)) (hdo : h'.dataoffset = (hdrLenOf h' : Nat)) (hpk : h'.peak = none)
-    (hde : h'.dataend = 0) (hD : D.length = F * (enc.nbytes * chn)) (hdata : s'.bytes.drop (hdrLenOf h') = D)
+    (t2 : Nat) (htl : TailOk h' t2)
+    (hde : h'.container ≠ .wav → h'.dataend = 0) (hD : D.length = F * (enc.nbytes * chn))
+    (hdata : s'.bytes.drop (hdrLenOf h') = D ++ zeros t2)
     (hlen : hdrLenOf h' ≤ s'.bytes.length) : ReopenedRw enc chn F D h' s' := by
   have eb : h'.bw = enc.nbytes * chn := by unfold H.bw; rw [henc, hch]
-  have hl : s'.bytes.length = hdrLenOf h' + D.length := by
+  have hl : s'.bytes.length = hdrLenOf h' + D.length + t2 := by
     have := congrArg List.length hdata
-    rw [List.length_drop] at this; omega
-  have ht : OpenTight h' s' := ⟨hdo, hpk, hde, by rw [hl, hdo, hfr, hD, eb]; push_cast; rfl⟩
+    rw [List.length_drop, List.length_append, zeros_length] at this; omega
+  have ht : OpenPadded h' s' := by
+    refine ⟨hdo, hpk, hde, t2, htl, by rw [hl, hdo, hfr, hD, eb]; push_cast; rfl, ?_⟩
+    have e : s'.bytes.length - t2 = hdrLenOf h' + D.length := by omega
+    rw [e, ← List.drop_drop, hdata, List.drop_left' rfl]
   obtain ⟨_, _, hr, _, hw, _, _, _⟩ := open_rw_facts ix s0 fmt ch sr h' s' ho
-  refine ⟨RwInv_open ix s0 fmt ch sr h' s' ho ht, ?_, hch, henc⟩
+  refine ⟨RwInv_open_padded ix s0 fmt ch sr h' s' ho ht, ?_, hch, henc⟩
   unfold absOf dataRegion
-  rw [hdo, hfr, hr, hw, hfr, Int.toNat_natCast, Int.toNat_natCast, hdata, eb, ← hD, List.take_length]
+  rw [hdo, hfr, hr, hw, hfr, Int.toNat_natCast, Int.toNat_natCast, hdata, eb, ← hD, List.take_left' rfl]
   rfl
 
 /-! ### the three images -/
@@ -296,7 +302,8 @@ theorem raw_image_open_rw (fmt : Nat) (ch sr : Int) (enc : Enc) (hcont : contain
   obtain ⟨a, b, c, d, e⟩ := hraw e3
   have eb : h'.bw = enc.nbytes * ch.toNat := by unfold H.bw; rw [e2, e1]
   have hO : hdrLenOf h' = 0 := by simp [hdrLenOf, e3]
-  refine ⟨h', s', ho, ReopenedRw.of_open ho e1 e2 ?_ (by rw [a, hO]; rfl) b c hD (by rw [hO, d]; rfl) (by rw [hO]; omega)⟩
+  refine ⟨h', s', ho, ReopenedRw.of_open ho e1 e2 ?_ (by rw [a, hO]; rfl) b 0 (Or.inl rfl) (fun _ => c) hD
+    (by rw [hO, d]; simp [zeros]) (by rw [hO]; omega)⟩
   rw [e]; simp only; rw [eb, hD, Nat.mul_div_cancel _ hbw]
 
 theorem au_image_open_rw (big : Bool) (codec : Nat) (sr : Int) (chn : Nat) (enc : Enc)
@@ -319,32 +326,33 @@ theorem au_image_open_rw (big : Bool) (codec : Nat) (sr : Int) (chn : Nat) (enc 
     openHandle_rw_parsed ix _ pos fmt0 ch0 sr0 _ .au enc hne hraw (by rw [parseAny_au]; exact hparse) hf1
       (by rw [hf2]; exact henc) hsr.1
   have hO : hdrLenOf h' = 24 := by simp [hdrLenOf, h3]
-  refine ⟨h', s', ho, ReopenedRw.of_open ho h1 h2 ?_ (by rw [h8, hO]) h5 h7 hD ?_ ?_⟩
+  refine ⟨h', s', ho, ReopenedRw.of_open ho h1 h2 ?_ (by rw [h8, hO]) h5 0 (Or.inl rfl) (fun _ => h7) hD ?_ ?_⟩
   · rw [hfr]
     have := initFrames_plain 24 D.length (enc.nbytes * chn) hbw
     simp only at this ⊢
     rw [this, hD, Nat.mul_div_cancel _ hbw]
-  · rw [h9, hO, ← hlen]; simp
+  · rw [h9, hO, ← hlen]; simp [zeros]
   · rw [h9, hO, List.length_append, hlen]; omega
 
-/-- WAV without a PEAK chunk whose data section ends on an even offset (no pad byte) -/
+/-- WAV without a PEAK chunk, at most the zero pad byte behind the data -/
 theorem wav_image_open_rw (big : Bool) (codec : Nat) (sr : Int) (chn : Nat) (enc : Enc)
     (henc : encOf .wav codec big = some enc) (hch : 1 ≤ chn ∧ chn ≤ 1024) (hsr : 1 ≤ sr ∧ sr ≤ 0x7FFFFFFF)
     (D : List Byte) (F : Nat) (hD : D.length = F * (enc.nbytes * chn)) (hguard : D.length < 0xFFFFFFFF) (fl : Int)
-    (heven : (wavHdrLen_ct codec chn false + D.length) % 2 = 0)
+    (t2 : Nat) (ht2 : t2 ≤ 1)
     (ix pos fmt0 : Nat) (ch0 sr0 : Int) (hraw : containerOf fmt0 ≠ some .raw) :
-    ∃ h' s', openHandle ix ⟨wavHdr_ct big codec enc.nbytes chn sr F none true fl D.length ++ D, pos⟩ .rw fmt0 ch0 sr0 =
-        .ok h' s' ∧ ReopenedRw enc chn F D h' s' := by
+    ∃ h' s', openHandle ix ⟨wavHdr_ct big codec enc.nbytes chn sr F none true fl D.length ++ D ++ zeros t2, pos⟩ .rw
+        fmt0 ch0 sr0 = .ok h' s' ∧ ReopenedRw enc chn F D h' s' := by
   obtain ⟨hcodec, hnb⟩ := encOf_wav_facts henc
   have hbw : 0 < enc.nbytes * chn := Nat.mul_pos (encOf_nbytes_pos_ct henc) (by omega)
-  have himg : wavHdr_ct big codec enc.nbytes chn sr F none true fl D.length ++ D =
-      wavChain big codec (wavNb codec) chn sr (wavFact big codec F) [] fl D.length D := by
-    rw [wavHdr_chain, hnb]; rfl
+  have himg : wavHdr_ct big codec enc.nbytes chn sr F none true fl D.length ++ D ++ zeros t2 =
+      wavChain big codec (wavNb codec) chn sr (wavFact big codec F) [] fl D.length (D ++ zeros t2) := by
+    rw [List.append_assoc, wavHdr_chain, hnb]; rfl
   have hO : wavHdrLen_ct codec chn false = 16 + wavFmtLen codec + (wavFact big codec F).length + 0 + 8 := by
     simp only [wavHdrLen_ct, wavFact_length]
     simp
   have hparse := wavParse_chain_nopeak big codec chn sr (wavFact big codec F) []
-    fl D.length D hcodec hch (wavFact_shape _ _ _) rfl hguard (by simp) (by simp)
+    fl D.length (D ++ zeros t2) hcodec hch (wavFact_shape _ _ _) rfl hguard (by simp)
+    (by rw [List.length_append, zeros_length]; omega)
   simp only [List.length_nil] at hparse
   rw [← hO] at hparse
   obtain ⟨hf1, hf2⟩ := wav_fmtWord_facts big _ hcodec
@@ -352,10 +360,10 @@ theorem wav_image_open_rw (big : Bool) (codec : Nat) (sr : Int) (chn : Nat) (enc
   have hhl : (wavHdr_ct big codec enc.nbytes chn sr F none true fl D.length).length = wavHdrLen_ct codec chn false :=
     wavHdr_length _ _ _ _ _ _ _ _ _ (fun ps hp => by cases hp)
   have hO0 : 0 < wavHdrLen_ct codec chn false := by rw [hO]; omega
-  have hne : wavHdr_ct big codec enc.nbytes chn sr F none true fl D.length ++ D ≠ [] := by
+  have hne : wavHdr_ct big codec enc.nbytes chn sr F none true fl D.length ++ D ++ zeros t2 ≠ [] := by
     intro hc0
     have := congrArg List.length hc0
-    rw [List.length_append, hhl] at this; simp at this; omega
+    rw [List.length_append, List.length_append, hhl] at this; simp at this; omega
   rw [himg] at hne ⊢
   obtain ⟨h', s', ho, hfr, h1, h2, h3, h4, h5, h6, h7, h8, h9⟩ :=
     openHandle_rw_parsed ix _ pos fmt0 ch0 sr0 _ .wav enc hne hraw (by rw [parseAny_wav]; exact hparse) hf1
@@ -364,15 +372,25 @@ theorem wav_image_open_rw (big : Bool) (codec : Nat) (sr : Int) (chn : Nat) (enc
     have e4 : codecOf h'.fmtWord = codec := by rw [h4]; exact hf2
     simp only [hdrLenOf, h3, wavHdrLen, h5, e4, wavHdrLen_ct, wavFmtLen]
     simp
-  refine ⟨h', s', ho, ReopenedRw.of_open ho h1 h2 ?_ (by rw [h8, hOl]) h5 ?_ hD ?_ ?_⟩
+  have htl : TailOk h' t2 := by
+    rcases Nat.eq_zero_or_pos t2 with hz | hp
+    · left; exact hz
+    · right; exact ⟨by omega, h3⟩
+  refine ⟨h', s', ho, ReopenedRw.of_open ho h1 h2 ?_ (by rw [h8, hOl]) h5 t2 htl (fun hnw => absurd h3 hnw) hD ?_ ?_⟩
   · rw [hfr]
     have hN : D.length / (enc.nbytes * chn) = F := by rw [hD]; exact Nat.mul_div_cancel _ hbw
-    have e1 : ¬ (D.length < D.length) := by omega
-    simp only [e1, if_false]
-    exact (initFrames_plain (wavHdrLen_ct codec chn false) D.length (enc.nbytes * chn) hbw).trans (by rw [hN])
-  · rw [h7]; simp
-  · rw [h9, hOl, ← himg, ← hhl]; simp
-  · rw [h9, hOl, ← himg, List.length_append, hhl]; omega
+    simp only [List.length_append, zeros_length]
+    rcases Nat.eq_zero_or_pos t2 with ht | ht
+    · have e1 : ¬ (D.length < D.length + t2) := by omega
+      have e2 : wavHdrLen_ct codec chn false + (D.length + t2) = wavHdrLen_ct codec chn false + D.length := by omega
+      simp only [e1, if_false, e2]
+      exact (initFrames_plain (wavHdrLen_ct codec chn false) D.length (enc.nbytes * chn) hbw).trans (by rw [hN])
+    · have e1 : D.length < D.length + t2 := by omega
+      have e2 : wavHdrLen_ct codec chn false + (D.length + t2) = wavHdrLen_ct codec chn false + D.length + t2 := by omega
+      simp only [e1, if_true, e2]
+      exact (initFrames_dataend (wavHdrLen_ct codec chn false) D.length t2 (enc.nbytes * chn) hbw ht hO0).trans (by rw [hN])
+  · rw [h9, hOl, ← himg, List.append_assoc, ← hhl]; simp
+  · rw [h9, hOl, ← himg, List.length_append, List.length_append, hhl]; omega
 
 /-! ### … applied to what `closeHandle` leaves -/
 
@@ -404,21 +422,18 @@ theorem hdrLenOf_wav_nopeak (h : H) (hc : h.container = .wav) (hp : h.peak = non
   simp only [hdrLenOf, hc, wavHdrLen, hp, wavHdrLen_ct, wavFmtLen]
   simp
 
-/-- WAV: when the data section ends on an even offset (no pad byte follows it) -/
+/-- WAV: with or without the pad byte -/
 theorem RwView.reopen_rw_wav {h : H} {s : Store} {R W F : Nat} {hdr D : List Byte} (v : RwView h s R W F hdr D)
     {fmt : Nat} {ch sr : Int} (cfg : CfgOf fmt ch sr h) (hc : h.container = .wav) (hsr : sr ≤ 0x7FFFFFFF)
-    (hguard : D.length < 0xFFFFFFFF) (heven : (hdrLenOf h + D.length) % 2 = 0)
+    (hguard : D.length < 0xFFFFFFFF)
     (ix pos fmt0 : Nat) (ch0 sr0 : Int) (hraw : containerOf fmt0 ≠ some .raw) :
     ∃ h' s', openHandle ix ⟨(closeHandle h s).bytes, pos⟩ .rw fmt0 ch0 sr0 = .ok h' s' ∧ ReopenedRw h.enc h.ch F D h' s' := by
-  rw [v.close_wav hc]
-  have hpad : wavPadAt (hdrLenOf h + D.length) = [] := by unfold wavPadAt; rw [if_neg (by omega)]
-  rw [hpad]
-  simp only [List.length_nil, Nat.add_zero, List.append_nil]
+  obtain ⟨t2, ht2, _, hcl⟩ := v.close_wav hc
+  rw [hcl]
   have henc : encOf .wav (codecOf h.fmtWord) h.big = some h.enc := by
     have := cfg.enc; rw [hc] at this; rw [cfg.fmtWord]; exact this
   have hch : 1 ≤ h.ch ∧ h.ch ≤ 1024 := by rw [cfg.hch]; have := cfg.chr; omega
   have hsr' : 1 ≤ h.sr ∧ h.sr ≤ 0x7FFFFFFF := by rw [cfg.hsr]; exact ⟨cfg.srr, hsr⟩
-  exact wav_image_open_rw h.big _ h.sr h.ch h.enc henc hch hsr' D F v.dlen hguard _
-    (by rw [← hdrLenOf_wav_nopeak h hc v.peak]; exact heven) ix pos fmt0 ch0 sr0 hraw
+  exact wav_image_open_rw h.big _ h.sr h.ch h.enc henc hch hsr' D F v.dlen hguard _ t2 ht2 ix pos fmt0 ch0 sr0 hraw
 
 end Sf
